@@ -234,6 +234,61 @@ def check_ctor_derived(run, rule, prog, eff, classes, describe=False):
     return n
 
 
+def check_shared_defaults(run, rule, prog, eff, classes):
+    """An object created once -- at module level, or as the default value of a constructor parameter -- and stored in a field of every
+    instance that is not given its own, is one object shared by all of them.  That is harmless for an immutable value; it is a defect when
+    the class *writes attributes of the object held in that field* (binds it to itself): the last instance created re-points the shared
+    object, and the earlier instances compute with the newest one's state."""
+    n = 0
+    for ci in classes:
+        init = ci.methods.get('__init__')
+        if init is None:
+            continue
+        mi = ci.mod
+        shared = {}
+        for st in mi.tree.body:
+            tg = st.targets if isinstance(st, ast.Assign) else ([st.target] if isinstance(st, ast.AnnAssign) and st.value is not None else [])
+            if tg and isinstance(st.value, ast.Call) and isinstance(st.value.func, ast.Name) and st.value.func.id[:1].isupper():
+                for t in tg:
+                    if isinstance(t, ast.Name):
+                        shared[t.id] = ('module-level %s = %s' % (t.id, norm(st.value)[:40]), st)
+        args = init.args.args
+        for a_, d in zip(args[len(args) - len(init.args.defaults):], init.args.defaults):
+            if isinstance(d, ast.Call) and isinstance(d.func, ast.Name) and d.func.id[:1].isupper():
+                shared[a_.arg] = ('default value %s=%s evaluated once' % (a_.arg, norm(d)[:40]), d)
+        if not shared:
+            continue
+        for st in ast.walk(init):
+            if not isinstance(st, ast.Assign):
+                continue
+            for t in st.targets:
+                ch = self_chain(t)
+                if not ch or '.' in ch:
+                    continue
+                used = [x.id for x in ast.walk(st.value) if isinstance(x, ast.Name) and x.id in shared]
+                if not used:
+                    continue
+                # the field(s) the value ends up in, and attribute stores on the object held there
+                sc, setter = prog.find_setter(ci, ch)
+                fields = {ch} | ({f for f in eff.closure(ci, setter).writes if '.' not in f} if setter is not None else set())
+                sub = {}
+                for nm, f in list(ci.methods.items()) + list(ci.setters.items()):
+                    for k, nodes in eff.summary(f).subwrites.items():
+                        if k.split('.')[0] in fields:
+                            sub.setdefault(k, []).extend(nodes)
+                n += 1
+                run.subject(rule)
+                if sub:
+                    k0 = sorted(sub)[0]
+                    run.fail(rule, '%s|%s|__init__|shared-default:%s' % (mi.name, ci.name, ch), mi.relpath, st.lineno,
+                             "%s.__init__ stores the %s in self.%s of every instance that is not given its own, and the class then assigns to "
+                             "self.%s (line %d): one object is shared by all instances and re-bound by the last one created, so the earlier instances "
+                             "compute with the newest one's state" % (ci.name, shared[used[0]][0], ch, k0, sub[k0][0].lineno))
+                else:
+                    run.ok(rule, '%s.%s default' % (ci.name, ch), 'shared default object is never written through the field', sample=False)
+    return n
+
+
 _EXAMPLE = '''
 class Instrument:
     def __init__(self, angle):
@@ -284,6 +339,29 @@ class Base:
 
     def evaluate(self, x):
         return 0
+
+
+class Tool:
+    def __init__(self):
+        self.function = None
+
+
+SHARED_TOOL = Tool()
+
+
+class Model:
+    def __init__(self, tool=None):
+        self._f = object()
+        self.tool = tool or SHARED_TOOL
+
+    @property
+    def tool(self):
+        return self._tool
+
+    @tool.setter
+    def tool(self, value):
+        self._tool = value
+        self._tool.function = self._f
 
 
 class Flat(Base):
@@ -337,5 +415,9 @@ def selfcheck():
         check_ctor_derived(q, 'X', prog, eff, [prog.cls('ex.inst.Flat'), prog.cls('ex.inst.Base'), prog.cls('ex.inst.Instrument')])
         if [k.split('|')[2] + '|' + k.rsplit('|', 1)[-1] for k in q.fails] != ['setter:lo|ctor-derived:_density']:
             raise AnalysisError('constructor-derived rule self-check failed: %s' % q.fails)
+        q = _Probe()
+        check_shared_defaults(q, 'X', prog, eff, [prog.cls('ex.inst.Model'), prog.cls('ex.inst.Flat')])
+        if [k.rsplit('|', 1)[-1] for k in q.fails] != ['shared-default:tool']:
+            raise AnalysisError('shared-default rule self-check failed: %s' % q.fails)
     finally:
         shutil.rmtree(d, ignore_errors=True)
